@@ -1999,7 +1999,8 @@ impl SrcGen {
     }
 }
 
-/// deepest nesting of `(` / `[` in the text the real formatter prints for the tree (0 when it does not print).  The
+/// cost estimate of reading the text the real formatter prints for the tree back: deepest nesting of `(` / `[` plus half
+/// the number of `<` (0 when it does not print).  The
 /// parser tries a cast and a parenthesised expression at every `(` and a template argument list at every `name <`, each
 /// reading the inside again: its running time doubles with every level (a depth-6 random tree with a dozen levels takes
 /// minutes, in the Lean model as well), so the random part of `template-args` keeps the nesting bounded.
@@ -2019,7 +2020,7 @@ fn printed_nesting(tree: &SExp) -> usize {
         Ok(Ok(t)) => t,
         _ => return 0,
     };
-    let (mut d, mut max) = (0usize, 0usize);
+    let (mut d, mut max, mut lts) = (0usize, 0usize, 0usize);
     for c in text.chars() {
         match c {
             '(' | '[' => {
@@ -2027,10 +2028,13 @@ fn printed_nesting(tree: &SExp) -> usize {
                 max = max.max(d);
             }
             ')' | ']' => d = d.saturating_sub(1),
+            '<' => lts += 1,
             _ => {}
         }
     }
-    max
+    // every `<` (operator or bracket) starts a template argument attempt that reads the rest once more: count two of them
+    // like one more level (seed 7, thorough: one tree with 6 levels and a dozen `<` took 591 s)
+    max + lts / 2
 }
 
 /// the shape of the known misreading `a < b … > (c)`: the tree has a `<` and a `>` operator, none of them inside an
@@ -2331,7 +2335,7 @@ fn exhaustive(d: usize, full: bool) -> Vec<SExp> {
 /// declarator
 const TARG_POSITIONS: usize = 9;
 /// bound on the bracket nesting of the printed text of a random `template-args` tree (see `printed_nesting`)
-const MAX_TARG_NESTING: usize = 6;
+const MAX_TARG_NESTING: usize = 7;
 fn targ_position(e: &SExp, k: usize) -> SExp {
     let ea = SExp::list("E", vec![e.clone()]);
     let foo = |args: Vec<SExp>| {
